@@ -20,6 +20,11 @@ MUTS = {
  "ims-equal-string-only": ("src/http-header-glue.c", "if (buffer_is_equal(lmod, vb)\n\t\t    || !http_date_if_modified_since(BUF_PTR_LEN(vb), lmtime)) {", "if (buffer_is_equal(lmod, vb)) {", ["C15"]),
  "inm-then-ims": ("src/http-header-glue.c", "\t} else if (http_method_get_head_query(r->http_method)\n\t\t   && (vb = http_header_request_get(r, HTTP_HEADER_IF_MODIFIED_SINCE,",
                   "\t}\n\tif (http_method_get_head_query(r->http_method)\n\t\t   && (vb = http_header_request_get(r, HTTP_HEADER_IF_MODIFIED_SINCE,", ["C15"]),
+ "head-keeps-length": ("src/response.c", "        http_response_body_clear(r, 1);\n        r->resp_body_finished = 1;", "        http_response_body_clear(r, 0);\n        r->resp_body_finished = 1;", ["C04"]),
+ "cgi-query-empty": ("src/http_cgi.c", 'n ? r->uri.query.ptr : "", n);', 'n > 1 ? r->uri.query.ptr : "", n > 1 ? n : 0);', ["C09"]),
+ "steal-partial-mem": ("src/chunk.c", "chunkqueue_append_mem(dest, c->mem->ptr + c->offset, len);\n\t\t\t\tbreak;", "chunkqueue_append_mem(dest, c->mem->ptr, len);\n\t\t\t\tbreak;", ["C17"]),
+ "h2-swin-conn": ("src/h2.c", "    r->x.h2.swin   -= (int32_t)sent;\n    h2r->x.h2.swin -= (int32_t)sent;", "    r->x.h2.swin   -= (int32_t)sent;", ["C06", "C05"]),
+ "lim-conns": ("src/connections.c", "    ++srv->lim_conns;", "    if (srv->lim_conns < srv->srvconf.max_conns - 1) ++srv->lim_conns;", ["C13"]),
  "else-link": ("src/configparser.y", "    C->prev = B;\n    B->next = C;\n    A = C;", "    C->prev = B;\n    A = C;", ["C14"]),
 }
 
